@@ -64,6 +64,8 @@ func (fr *frame) toFP(x value) *smt.Term {
 			return x.T
 		case FRat:
 			return c.FDiv(c.FFromSBV(x.T), c.FFromSBV(x.Den))
+		case FAffine:
+			panic(domainExit{"integer+constant float used in an operation outside + - compare"})
 		}
 	}
 	panic(engineError{fmt.Sprintf("toFP: %T", x)})
@@ -112,6 +114,10 @@ func (fr *frame) floatBinop(op token.Token, x, y value) value {
 		}
 		return fr.freshOpaque("arith-on-opaque")
 	}
+	// integer + small constant domain (no FP theory, no ulp claims)
+	if r, ok := fr.affineBinop(op, x, y, isCmp); ok {
+		return r
+	}
 	// exact integer domain
 	xt, xb, xi := fr.asExactInt(x)
 	yt, yb, yi := fr.asExactInt(y)
@@ -130,6 +136,9 @@ func (fr *frame) floatBinop(op token.Token, x, y value) value {
 				return mkExactInt(c.Mul(xt, yt), b)
 			}
 		case token.QUO:
+			if r, ok := fr.exactQuotient(xt, yt, xb); ok {
+				return r
+			}
 			if xb <= ratMaxBits && yb <= ratMaxBits {
 				return fr.mkRat(xt, yt, imax(xb, yb))
 			}
@@ -145,6 +154,12 @@ func (fr *frame) floatBinop(op token.Token, x, y value) value {
 			return mkSymBool(c.Eq(xt, yt))
 		case token.NEQ:
 			return mkSymBool(c.Not(c.Eq(xt, yt)))
+		}
+	}
+	// integer vs. non-integer constant: x < c  <=>  x <= floor(c), etc. (exact for integer x)
+	if isCmp && (xi != yi) {
+		if r, ok := fr.cmpIntWithConst(op, x, y, xt, yt, xi); ok {
+			return r
 		}
 	}
 	// exact rationals: comparisons only
@@ -253,6 +268,15 @@ func (fr *frame) mkRat(n, d *smt.Term, bits int) value {
 	if d.IsConst() && d.U == 1 {
 		return mkExactInt(n, bits)
 	}
+	// (k*c)/d with d | c: exactly the integer k*(c/d) (no rounding: the quotient is an integer < 2^52)
+	if d.IsConst() && n.Op == "bvmul" && len(n.Args) == 2 {
+		for i := 0; i < 2; i++ {
+			cst, oth := n.Args[i], n.Args[1-i]
+			if cst.IsConst() && int64(d.U) > 0 && int64(cst.U) > 0 && int64(cst.U)%int64(d.U) == 0 {
+				return mkExactInt(c.Mul(oth, c.BVConst(uint64(int64(cst.U)/int64(d.U)), 64)), bits)
+			}
+		}
+	}
 	return SymFloat{Mode: FRat, T: n, Den: d, Bits: bits}
 }
 
@@ -265,6 +289,8 @@ func (fr *frame) floatNeg(x SymFloat) value {
 		return SymFloat{Mode: FRat, T: c.Neg(x.T), Den: x.Den, Bits: x.Bits}
 	case FOpaque:
 		return fr.freshOpaque("neg-opaque")
+	case FAffine:
+		return SymFloat{Mode: FAffine, T: c.Neg(x.T), K: -x.K, Bits: x.Bits, Ops: x.Ops}
 	}
 	return mkFP(c.FNeg(x.T))
 }
@@ -446,7 +472,7 @@ func (fr *frame) floatIsNaN(x value) value {
 	}
 	s := x.(SymFloat)
 	switch s.Mode {
-	case FExactInt, FRat:
+	case FExactInt, FRat, FAffine:
 		return false
 	case FOpaque:
 		fr.i.px.havocDecisions++
@@ -475,4 +501,188 @@ func (fr *frame) floatIsInf(x value, sign int) value {
 		return mkSymBool(c.FEq(s.T, c.FPConst(math.Inf(-1))))
 	}
 	return mkSymBool(c.FIsInf(s.T))
+}
+
+// cmpIntWithConst compares an exact integer with a concrete finite non-integer constant.
+func (fr *frame) cmpIntWithConst(op token.Token, x, y value, xt, yt *smt.Term, xIsInt bool) (value, bool) {
+	c := fr.ctx()
+	var t *smt.Term
+	var k float64
+	if xIsInt {
+		kf, ok := y.(float64)
+		if !ok {
+			return nil, false
+		}
+		t, k = xt, kf
+	} else {
+		kf, ok := x.(float64)
+		if !ok {
+			return nil, false
+		}
+		t, k = yt, kf
+		// mirror: k op t  ==  t op' k
+		switch op {
+		case token.LSS:
+			op = token.GTR
+		case token.LEQ:
+			op = token.GEQ
+		case token.GTR:
+			op = token.LSS
+		case token.GEQ:
+			op = token.LEQ
+		}
+	}
+	if k != k || math.IsInf(k, 0) || math.Abs(k) >= 1<<exactIntMaxBits || k == math.Trunc(k) {
+		return nil, false
+	}
+	fl := c.BVConst(uint64(int64(math.Floor(k))), 64)
+	ce := c.BVConst(uint64(int64(math.Ceil(k))), 64)
+	switch op {
+	case token.LSS, token.LEQ:
+		return mkSymBool(c.SLe(t, fl)), true
+	case token.GTR, token.GEQ:
+		return mkSymBool(c.SLe(ce, t)), true
+	case token.EQL:
+		return false, true
+	case token.NEQ:
+		return true, true
+	}
+	return nil, false
+}
+
+// exactQuotient: (k*c)/d with constant d dividing constant c is exactly the integer k*(c/d).
+func (fr *frame) exactQuotient(n, d *smt.Term, bits int) (value, bool) {
+	c := fr.ctx()
+	if !d.IsConst() || int64(d.U) <= 0 {
+		return nil, false
+	}
+	if d.U == 1 {
+		return mkExactInt(n, bits), true
+	}
+	if n.Op == "bvmul" && len(n.Args) == 2 {
+		for i := 0; i < 2; i++ {
+			cst, oth := n.Args[i], n.Args[1-i]
+			if cst.IsConst() && int64(cst.U) > 0 && int64(cst.U)%int64(d.U) == 0 {
+				return mkExactInt(c.Mul(oth, c.BVConst(uint64(int64(cst.U)/int64(d.U)), 64)), bits), true
+			}
+		}
+	}
+	return nil, false
+}
+
+const affineMaxBits = 40
+const affineMaxOps = 8
+
+// asAffine views x as T + K: (term, K, bits, ops, ok). Exact integers have K = 0; concrete
+// non-integers have T = 0.
+func (fr *frame) asAffine(x value) (*smt.Term, float64, int, int, bool) {
+	switch x := x.(type) {
+	case float64:
+		if x != x || math.IsInf(x, 0) || math.Abs(x) >= 1<<20 {
+			return nil, 0, 0, 0, false
+		}
+		if x == math.Trunc(x) {
+			return fr.ctx().BVConst(uint64(int64(x)), 64), 0, smt.BitLen(int64(x)), 0, true
+		}
+		return fr.ctx().BVConst(0, 64), x, 0, 0, true
+	case SymFloat:
+		switch x.Mode {
+		case FExactInt:
+			if x.Bits <= affineMaxBits {
+				return x.T, 0, x.Bits, 0, true
+			}
+		case FAffine:
+			return x.T, x.K, x.Bits, x.Ops, true
+		}
+	}
+	return nil, 0, 0, 0, false
+}
+
+func (fr *frame) affineBinop(op token.Token, x, y value, isCmp bool) (value, bool) {
+	xs, xIsS := x.(SymFloat)
+	ys, yIsS := y.(SymFloat)
+	xAff := xIsS && xs.Mode == FAffine
+	yAff := yIsS && ys.Mode == FAffine
+	xf, xIsF := x.(float64)
+	yf, yIsF := y.(float64)
+	xNonInt := xIsF && xf != math.Trunc(xf)
+	yNonInt := yIsF && yf != math.Trunc(yf)
+	xExact := xIsS && xs.Mode == FExactInt
+	yExact := yIsS && ys.Mode == FExactInt
+	// engage only when an affine value is involved, or an exact integer meets a non-integer constant
+	if !(xAff || yAff || (xExact && yNonInt) || (yExact && xNonInt)) {
+		return nil, false
+	}
+	if isCmp && ((xExact && yNonInt) || (yExact && xNonInt)) {
+		return nil, false // handled exactly by cmpIntWithConst
+	}
+	xt, xk, xb, xo, ok1 := fr.asAffine(x)
+	yt, yk, yb, yo, ok2 := fr.asAffine(y)
+	if !ok1 || !ok2 {
+		return nil, false
+	}
+	c := fr.ctx()
+	mk := func(t *smt.Term, k float64, bits, ops int) value {
+		if bits > affineMaxBits || ops > affineMaxOps || math.Abs(k) >= 1<<20 {
+			panic(domainExit{"integer+constant float chain too long or too large"})
+		}
+		if k == 0 {
+			return mkExactInt(t, bits)
+		}
+		if t.IsConst() {
+			return float64(int64(t.U)) + k
+		}
+		return SymFloat{Mode: FAffine, T: t, K: k, Bits: bits, Ops: ops}
+	}
+	switch op {
+	case token.ADD:
+		return mk(c.Add(xt, yt), xk+yk, imax(xb, yb)+1, xo+yo+1), true
+	case token.SUB:
+		return mk(c.Sub(xt, yt), xk-yk, imax(xb, yb)+1, xo+yo+1), true
+	}
+	if !isCmp {
+		panic(domainExit{"unsupported arithmetic on integer+constant float: " + op.String()})
+	}
+	// x ? y  <=>  (xt - yt) ? d   with d = yk - xk (a concrete real)
+	d := yk - xk
+	diff := c.Sub(xt, yt)
+	near := math.Abs(d - math.Round(d))
+	if near <= 1.0/4096 {
+		if near == 0 && xo+yo == 0 {
+			// both sides exact: integer comparison
+			di := c.BVConst(uint64(int64(d)), 64)
+			return fr.cmpTerms(op, diff, di), true
+		}
+		panic(domainExit{"possible floating-point tie between integer+constant values (DESIGN.md D3)"})
+	}
+	fl := c.BVConst(uint64(int64(math.Floor(d))), 64)
+	ce := c.BVConst(uint64(int64(math.Ceil(d))), 64)
+	switch op {
+	case token.LSS, token.LEQ:
+		return mkSymBool(c.SLe(diff, fl)), true
+	case token.GTR, token.GEQ:
+		return mkSymBool(c.SLe(ce, diff)), true
+	case token.EQL:
+		return false, true
+	case token.NEQ:
+		return true, true
+	}
+	return nil, false
+}
+
+func (fr *frame) cmpTerms(op token.Token, a, b *smt.Term) value {
+	c := fr.ctx()
+	switch op {
+	case token.LSS:
+		return mkSymBool(c.SLt(a, b))
+	case token.LEQ:
+		return mkSymBool(c.SLe(a, b))
+	case token.GTR:
+		return mkSymBool(c.SLt(b, a))
+	case token.GEQ:
+		return mkSymBool(c.SLe(b, a))
+	case token.EQL:
+		return mkSymBool(c.Eq(a, b))
+	}
+	return mkSymBool(c.Not(c.Eq(a, b)))
 }
